@@ -204,9 +204,11 @@ def u_queue_space_callback(ctx, index):
 
 def u_queue_full_callback(ctx, index):
   h = ClientHarness(ctx, index)
+  old = h.queue.term
   h.ip.run(FACTORY + '.queueFullCallback', [ctx.fresh(z3.IntSort(), 'result')], self_obj=h.factory)
   ctx.cover('queueFullCallback/returns')
   ctx.check('C09/queueFullCallback/signals_full_once', z3.BoolVal(len(h.log.of('events.cacheFull')) == 1))
+  ctx.check('C07/queueFullCallback/queue_untouched', h.queue.term == old)
 
 
 def u_check_queue(ctx, index):
@@ -260,11 +262,11 @@ def u_destination_down(ctx, index):
     return [('queue_untouched_while_reinjecting', h.queue.term == old)]
 
   def havoc(fr):
-    h.log.clear()
+    state['pos'] = len(h.log.events)
 
   def step(fr):
     k = fr.loop_k[0] - 1
-    ev = h.log.of('events.metricGenerated')
+    ev = [e for e in h.log.events[state['pos']:] if e[0] == 'events.metricGenerated']
     ok = len(ev) == 1
     ctx.cover('destinationDown/reinject_one')
     ctx.check('C07/destinationDown/reinjects_each_item_once', z3.BoolVal(ok))
@@ -272,7 +274,7 @@ def u_destination_down(ctx, index):
       m, dp = ev[0][1]
       ctx.check('C07/destinationDown/reinjects_in_order', TItem.mk(m, dp) == fr.ghost['seq0'].term[k])
   h.ip.loops[(Q, 0)] = LoopSpec('for (metric, datapoint) in metrics', inv, havoc, ghost_step=step,
-                                locals_modified=['metric', 'datapoint'])
+                                locals_modified=[])
   has0 = h.router_has
   retries = h.factory.fields['retries']
   qf0 = as_b(h.queueFull.called)
@@ -334,7 +336,7 @@ def u_line_send_now(ctx, index):
   h.protocol.cls = index.cls(LINE_P)
   batch = SymSeq(TItem, ctx.fresh(z3.SeqSort(Item), 'batch'), 'batch')
   ip = h.ip
-  ip.ext[('unpack', Item.name())] = lambda ip2, v, n: [CM.I_METRIC(v), DPView(CM.I_DP(v))]
+  ip.ext[('getitem', 'Datapoint')] = lambda ip2, o, i: DPView(o).py___getitem__(ip2, i)
 
   def fmt(ip2, f, args):
     if f == '%.10f':
@@ -387,7 +389,7 @@ def u_line_send_now(ctx, index):
     ctx.check('C15/line/_sendDatapointsNow/value_text',
               z3.And(z3.Implies(is_float, z3.BoolVal(is_float_text(v))), z3.Implies(z3.Not(is_float), z3.BoolVal(is_int_text(v)))))
   ip.loops[(Q, 0)] = LoopSpec('for (metric, datapoint) in datapoints', inv, havoc, ghost_step=step,
-                              locals_modified=['metric', 'datapoint', 'value', 'to_send'])
+                              locals_modified=[])
   raised = None
   try:
     ip.run(Q, [batch], self_obj=h.protocol)
@@ -436,7 +438,21 @@ def replay_client(model, ob):
   return {'replay_error': (err or out)[-600:]}
 
 
-def all_units():
+def all_units(pid=None):
+  us = _all_units()
+  if pid == 'C07':
+    return [u for u in us if not u.name.endswith('_sendDatapointsNow') and u.name != 'client.queueSpaceCallback']
+  if pid == 'C15':
+    return [u for u in us if u.name in ('client.takeSomeFromQueue', 'client.protocol.sendQueued',
+                                        'client.line._sendDatapointsNow', 'client.pickle._sendDatapointsNow')]
+  if pid == 'C09':
+    return [u for u in us if u.name in ('client.sendDatapoint', 'client.scheduleSend', 'client.protocol.sendQueued',
+                                        'client.queueSpaceCallback', 'client.queueFullCallback', 'client.resume_pause',
+                                        'client.destinationDown')]
+  return us
+
+
+def _all_units():
   F = FACTORY
   return [
     Unit('client.takeSomeFromQueue', u_take, [F + '.takeSomeFromQueue'], expect_covers=['take/returns'], replay=replay_client),
